@@ -498,7 +498,106 @@ def r7(run: Run, rt):
                                           f'win', fact='candidate when key <= value', loc=cp.loc(node))
                         # descending approximate mode (-1) is outside the statement
             if seen < 2:
-                raise AnalysisError('C14.R7', f'{h}: the scan does not compare `<row>[0]` with `{value}` in a modelled form')
+                # the scan is not written as a loop with comparisons of <row>[0] in the loop body: decide by evaluation
+                r7_eval(run, rt, only={(cp.label, h)})
+
+
+def r7_eval(run: Run, rt, only=None):
+    """the same obligations as the structural R7, decided by abstract evaluation (engine F) of the helper on small key columns:
+    exact mode answers at the FIRST equal key, approximate mode on ascending keys at the LAST key <= value (the last row when
+    the value exceeds every key, #N/A when it is below every key)"""
+    from ..finite import Evaluator, AV, const_av, Unknown, AbsRaise
+
+    def area(keys):
+        return AV('list', items=tuple(AV('list', items=(const_av(k), AV('str', text='other', val=f'P{i + 1}')))
+                                      for i, k in enumerate(keys)))
+    cases = [('exact', [1, 2, 2, 3], 2, 2, 'first of several equal keys'), ('exact', [1, 2, 3], 3, 3, 'equal key in the last row'),
+             ('exact', [1, 2, 3], 5, '#N/A', 'no equal key'),
+             ('approx', [1, 2, 2, 3], 2, 3, 'last of several equal keys'), ('approx', [1, 2, 4], 3, 2, 'last key below the value'),
+             ('approx', [1, 2, 3], 5, 3, 'value above every key'), ('approx', [2, 3, 4], 1, '#N/A', 'value below every key')]
+    for cp in rt.copies():
+        for h in ('_vlookup', '_match'):
+            if only is not None and (cp.label, h) not in only:
+                continue
+            fn = cp.members.get(h)
+            if fn is None:
+                continue
+            for mode, keys, val, want_pos, desc in cases:
+                if h == '_vlookup':
+                    args = [const_av(val), area(keys), const_av(2), const_av(mode == 'approx')]
+                    want = want_pos if want_pos == '#N/A' else f'P{want_pos}'
+                else:
+                    args = [const_av(val), area(keys), const_av(0 if mode == 'exact' else 1)]
+                    want = want_pos
+                construct = f'{h}[{cp.label}]/{mode}/{desc}'
+                ev = Evaluator(cp.members, max_depth=8)
+                try:
+                    res = ev.call_method(h, args)
+                except Unknown as u:
+                    raise AnalysisError('C14.R7', f'{construct}: the abstraction cannot follow the helper ({u})')
+                except AbsRaise as r_:
+                    run.bad('C14.R7', construct, f'raises:{r_.exc}', f'{h} raises {r_.exc} ({mode} mode, keys {keys}, value {val})',
+                            loc=cp.loc(fn))
+                    continue
+                sub = 'exact-answer' if mode == 'exact' else 'approximate-answer'
+                run.check(res.val == want, 'C14.R7', construct, sub,
+                          f'{h}: {mode} mode, keys {keys}, value {val} ({desc}): the answer is {res.val!r}, it must be {want!r}',
+                          fact=f'-> {res.val!r}', loc=cp.loc(fn))
+
+
+def r7_eval_all(run: Run, rt):
+    """evaluation-based obligations for every helper the abstraction can follow (in addition to the structural reading)"""
+    for cp in rt.copies():
+        for h in ('_vlookup', '_match'):
+            sub = Run('tmp', run.tier, run.seed, quiet=True)
+            try:
+                r7_eval(sub, rt, only={(cp.label, h)})
+            except AnalysisError as e:
+                run.note(f'C14.R7 evaluation skipped for {h}[{cp.label}]: {e.reason}')
+                continue
+            for o in sub.obligations:
+                if o['verdict'] == 'holds' and not any(x['construct'] == o['construct'] for x in run.obligations):
+                    run.ok('C14.R7', o['construct'], o['fact'], loc=o['loc'])
+            for f in sub.findings:
+                if not any(x['construct'] == f['construct'] for x in run.findings):
+                    run.bad('C14.R7', f['construct'], f['sub'], f['message'], loc=f['loc'])
+
+
+def r10(run: Run, rt):
+    """candidacy of a row: whether a key takes part in the scan may depend on blank / text / number, never on int versus float --
+    2 and 2.0 are the same Excel number.  The helpers are evaluated abstractly (engine F) on a one-row area."""
+    from ..finite import Evaluator, AV, const_av, Unknown, AbsRaise
+    payload = AV('str', text='other', val='PAYLOAD')
+    grid = [('int key 2 / float value 2.0', 2, 2.0, True), ('float key 2.0 / int value 2', 2.0, 2, True),
+            ('int key 2 / int value 2', 2, 2, True), ('float key 2.5 / float value 2.5', 2.5, 2.5, True),
+            ('int key 2 / float value 2.5 (approximate)', 2, 2.5, False), ('float key 1.5 / int value 2 (approximate)', 1.5, 2, False)]
+    for cp in rt.copies():
+        for h in ('_vlookup', '_match'):
+            fn = cp.members.get(h)
+            if fn is None:
+                continue
+            for desc, key, val, exact in grid:
+                row = AV('list', items=(const_av(key), payload))
+                area = AV('list', items=(row,))
+                if h == '_vlookup':
+                    args = [const_av(val), area, const_av(2), const_av(not exact)]
+                    want = 'PAYLOAD'
+                else:
+                    args = [const_av(val), area, const_av(0 if exact else 1)]
+                    want = 1
+                construct = f'{h}[{cp.label}]/{desc}'
+                ev = Evaluator(cp.members, max_depth=8)
+                try:
+                    res = ev.call_method(h, args)
+                except Unknown as u:
+                    raise AnalysisError('C14.R10', f'{construct}: the abstraction cannot follow the helper ({u})')
+                except AbsRaise as r_:
+                    run.bad('C14.R10', construct, f'raises:{r_.exc}', f'{h} raises {r_.exc} for {desc}', loc=cp.loc(fn))
+                    continue
+                run.check(res.val == want, 'C14.R10', construct, 'numeric-key-skipped',
+                          f'{h}: with {desc} the only row is not found (result {res.val!r}): whether a key is a candidate depends on '
+                          f'the Python type (int / float) of the key and of the value, although they are the same kind of Excel number',
+                          fact=f'-> {res.val!r}', loc=cp.loc(fn))
 
 
 def run(run: Run):
@@ -520,6 +619,7 @@ def run(run: Run):
     run.guard('C14.R6', r6, run, rt)
     run.rule('C14.R7', 'exact scans answer at the first equal key; approximate scans keep the last key <= value and stop only at a greater key')
     run.guard('C14.R7', r7, run, rt)
+    run.guard('C14.R7', r7_eval_all, run, rt)
     from . import c02 as _c02
     from .common import borrow as _b2
     run.rule('C14.R9', 'the area a lookup scans is the rectangle between the written corners, row-major (shared with C02.R1/R2/R4)')
@@ -538,6 +638,9 @@ def run(run: Run):
     _borrow(run, 'C14.R8', _c08.r1, _src, _grt(_src), _gcg(_src))
     _borrow(run, 'C14.R8', _c08.r4, _src, _grt(_src))
     run.floor('C14.R8', 50)
+    run.rule('C14.R10', 'a numeric key is a candidate for a numeric lookup value whatever the int/float mix')
+    run.guard('C14.R10', r10, run, rt)
+    run.floor('C14.R10', 20)
     run.floor('C14.R7', 8)
     run.floor('C14.R1', 10)
     run.floor('C14.R2', 12)
